@@ -10,6 +10,7 @@ import (
 	"crypto/ed25519"
 	"crypto/sha256"
 	"encoding/json"
+	"errors"
 	"fmt"
 	"math/rand"
 	"sort"
@@ -46,32 +47,38 @@ func c04Stripped(ver string) []string {
 	return l
 }
 
-// the content hash verdict, computed here: SHA-256 over the canonical JSON of the received
-// event without the keys discarded on receipt and without signatures, unsigned, hashes
-func c04HashOK(ver string, txt []byte) bool {
+// the real content hash, computed here: SHA-256 over the canonical JSON of the received event
+// without the keys discarded on receipt and without signatures, unsigned, hashes.  Whether the
+// value of hashes.sha256 decodes to exactly these bytes is decided by the model and the oracle.
+func c04Hash(ver string, txt []byte) []byte {
 	m := c04Obj(txt)
 	for _, k := range c04Stripped(ver) {
 		delete(m, k)
-	}
-	var h struct {
-		Sha256 *string `json:"sha256"`
-	}
-	if raw, ok := m["hashes"]; !ok || json.Unmarshal(raw, &h) != nil || h.Sha256 == nil {
-		return false
-	}
-	var want spec.Base64Bytes
-	if err := want.Decode(*h.Sha256); err != nil {
-		return false
 	}
 	delete(m, "signatures")
 	delete(m, "unsigned")
 	delete(m, "hashes")
 	cj, err := gmsl.CanonicalJSON(c04Marshal(m))
 	if err != nil {
-		return false
+		return nil
 	}
 	sum := sha256.Sum256(cj)
-	return bytes.Equal(sum[:], want)
+	return sum[:]
+}
+
+// the class of a refusal; a persistable refusal by CheckFields hands the event back as well
+func c04Refusal(e gmsl.PDU, err error) []byte {
+	var ve gmsl.EventValidationError
+	if errors.As(err, &ve) && ve.Code == gmsl.EventValidationTooLarge {
+		if ve.Persistable {
+			if e != nil {
+				return append(B("err-persistable\n"), c04Show(e)...)
+			}
+			return B("err-persistable")
+		}
+		return B("err-toolarge")
+	}
+	return B("err")
 }
 
 var c04Verifier = func() c05Verifier {
@@ -87,30 +94,32 @@ func c04Show(e gmsl.PDU) []byte {
 }
 
 func init() {
-	// [ver; event text; hok (recomputed)] -> redacted flag, JSON(), Content()
+	// [ver; event text; real hash (recomputed)] -> redacted flag, JSON(), Content() | refusal class
 	RegisterImpl("C04.parse", func(args [][]byte) ([][]byte, []byte) {
 		ver := string(args[0])
-		hok := "0"
-		if c04HashOK(ver, args[1]) {
-			hok = "1"
-		}
-		final := [][]byte{args[0], args[1], B(hok)}
+		final := [][]byte{args[0], args[1], c04Hash(ver, args[1])}
 		e, err := c05Impl(args[0]).NewEventFromUntrustedJSON(args[1])
 		if err != nil {
-			return final, B("err")
+			return final, c04Refusal(e, err)
 		}
 		return final, c04Show(e)
 	})
-	// [ver; original; tampered; hok (recomputed); class] -> the above for the tampered event,
-	// id=same|diff against the original, sig=ok|bad
+	// [ver; -; event text; real hash (recomputed); class] -> as C04.parse, in the argument layout of C04.tamper
+	RegisterImpl("C04.limits", func(args [][]byte) ([][]byte, []byte) {
+		ver := string(args[0])
+		final := [][]byte{args[0], args[1], args[2], c04Hash(ver, args[2]), args[4]}
+		e, err := c05Impl(args[0]).NewEventFromUntrustedJSON(args[2])
+		if err != nil {
+			return final, c04Refusal(e, err)
+		}
+		return final, append(c04Show(e), B("\nid=-\nsig=-")...)
+	})
+	// [ver; original; tampered; real hash of the tampered text (recomputed); class] -> the above for
+	// the tampered event, id=same|diff against the original, sig=ok|bad
 	RegisterImpl("C04.tamper", func(args [][]byte) ([][]byte, []byte) {
 		ver := string(args[0])
 		verImpl := c05Impl(args[0])
-		hok := "0"
-		if c04HashOK(ver, args[2]) {
-			hok = "1"
-		}
-		final := [][]byte{args[0], args[1], args[2], B(hok), args[4]}
+		final := [][]byte{args[0], args[1], args[2], c04Hash(ver, args[2]), args[4]}
 		orig, err := verImpl.NewEventFromUntrustedJSON(args[1])
 		if err != nil || orig.Redacted() {
 			return final, B("original-rejected")
@@ -120,7 +129,7 @@ func init() {
 		}
 		e, err := verImpl.NewEventFromUntrustedJSON(args[2])
 		if err != nil {
-			return final, B("err")
+			return final, c04Refusal(e, err)
 		}
 		out := c04Show(e)
 		// accessors of a redacted event expose nothing that the JSON does not have
@@ -306,7 +315,7 @@ func c04SetContent(m map[string]json.RawMessage, key string, val string, del boo
 	m["content"] = c04Marshal(cm)
 }
 
-func c04Tamperings(c *Ctx, b c04Built) []c04Tamper {
+func c04Tamperings(c *Ctx, b c04Built, hashVariants bool) []c04Tamper {
 	ver, typ := b.ver, b.typ
 	var ts []c04Tamper
 	add := func(name, class string, f func(m map[string]json.RawMessage)) { ts = append(ts, c04Tamper{name, class, f}) }
@@ -387,6 +396,52 @@ func c04Tamperings(c *Ctx, b c04Built) []c04Tamper {
 		h["md5"] = json.RawMessage(`"x"`)
 		m["hashes"] = c04Marshal(h)
 	})
+	// hash value variants: the same 32 bytes spelled differently (m: still a match) and values
+	// whose decoded bytes differ or that do not decode (x: a mismatch).  Base64Bytes.Decode:
+	// alphabet chosen by the presence of - or _, CR and LF skipped, no padding, unused low bits
+	// of the last character ignored.
+	var hv struct {
+		Sha256 string `json:"sha256"`
+	}
+	if hashVariants && json.Unmarshal(c04Obj(b.txt)["hashes"], &hv) == nil && len(hv.Sha256) == 43 {
+		s0 := hv.Sha256
+		setHash := func(v string) func(m map[string]json.RawMessage) {
+			return func(m map[string]json.RawMessage) {
+				q, _ := json.Marshal(v)
+				m["hashes"] = json.RawMessage(`{"sha256":` + string(q) + `}`)
+			}
+		}
+		for _, suffix := range []string{"A", "AA", "AAA", "AAAA", "B", "/w", s0 + "A", s0} {
+			add(fmt.Sprintf("hash-append %d", len(suffix)), "x", setHash(s0+suffix))
+		}
+		add("hash-truncated 1", "x", setHash(s0[:42]))
+		add("hash-truncated 2", "x", setHash(s0[:41]))
+		add("hash-padded", "x", setHash(s0+"="))
+		add("hash-padded-mid", "x", setHash(s0[:40]+"="+s0[40:]))
+		add("hash-trailing-space", "x", setHash(s0+" "))
+		add("hash-leading-space", "x", setHash(" "+s0))
+		add("hash-crlf-inside", "m", setHash(s0[:20]+"\r\n"+s0[20:]))
+		add("hash-lf-end", "m", setHash(s0+"\n"))
+		add("hash-cr-start", "m", setHash("\r"+s0))
+		add("hash-tab-inside", "x", setHash(s0[:20]+"\t"+s0[20:]))
+		url := strings.NewReplacer("+", "-", "/", "_").Replace(s0)
+		add("hash-urlsafe", "m", setHash(url)) // the same string when the hash has neither + nor /
+		if i := strings.IndexAny(s0, "+/"); i >= 0 {
+			if j := strings.IndexAny(s0[i+1:], "+/"); j >= 0 {
+				// one character of each alphabet: not decodable
+				add("hash-mixed-alphabets", "x", setHash(url[:i+1]+s0[i+1:]))
+			}
+		} else {
+			add("hash-urlsafe-marker", "x", setHash(s0[:10]+"-"+s0[11:])) // one character replaced by a URL-safe one
+		}
+		// the last of 43 characters carries 4 used bits and 2 unused ones: same bytes
+		const alpha = "ABCDEFGHIJKLMNOPQRSTUVWXYZabcdefghijklmnopqrstuvwxyz0123456789+/"
+		last := strings.IndexByte(alpha, s0[42])
+		add("hash-unused-bits", "m", setHash(s0[:42]+string(alpha[last^1])))
+		add("hash-used-bit", "x", setHash(s0[:42]+string(alpha[last^4])))
+		add("hash-first-char", "x", setHash(string(alpha[(strings.IndexByte(alpha, s0[0])+1)%64])+s0[1:]))
+		add("hash-lowercased", "x", setHash(strings.ToLower(s0)+"A"))
+	}
 	// two at once
 	add("content-add+unsigned", cls(c04ContentKept(ver, typ, "zzz_extra")), func(m map[string]json.RawMessage) {
 		c04SetContent(m, "zzz_extra", `{"deep":[1,{"x":null}]}`, false)
@@ -412,7 +467,7 @@ func genC04(c *Ctx) {
 					continue // joins need a signed mxid_mapping, invites the invitee's key: other properties
 				}
 				b := c04Build(c, ver, typ, v)
-				for _, t := range c04Tamperings(c, b) {
+				for _, t := range c04Tamperings(c, b, v == 0 || c.Thorough()) {
 					m := c04Obj(b.txt)
 					t.apply(m)
 					txt := c04Marshal(m)
@@ -422,6 +477,7 @@ func genC04(c *Ctx) {
 				}
 			}
 		}
+		c04Limits(c, ver)
 		// parse-level rejections
 		b := c04Build(c, ver, "m.room.message", 0)
 		for _, kv := range [][2]string{{"_room_version", `"x"`}, {"_", "1"}, {"room_id", `"noroom"`}, {"room_id", `"#x:a"`},
@@ -435,5 +491,117 @@ func genC04(c *Ctx) {
 			c.Run("C04.parse", [][]byte{B(ver), c04Marshal(m), B("")}, "C04.parse", "", "reject "+kv[0]+"="+kv[1][:min(len(kv[1]), 12)])
 			c.Count("parse-reject")
 		}
+	}
+}
+
+// ---------------------------------------------------------------------------------------------
+// length faults, alone and together with a hash fault
+
+// the class the size limits demand for one limited field
+func c04LenClass(v string) string {
+	switch {
+	case len([]rune(v)) > 255:
+		return "e:toolarge"
+	case len(v) > 255:
+		return "e:persistable"
+	}
+	return "e:ok"
+}
+
+// an event with the given limited fields and a CORRECT content hash: built by the library with
+// ordinary values (Build refuses over-long ones), then the fields are replaced and hashes.sha256
+// is recomputed here (the signatures no longer verify; parsing does not look at them)
+func c04BuildCustom(ver, typ string, stateKey *string, sender, content string, prev []string) []byte {
+	base := "m.room.message"
+	if stateKey != nil {
+		base = "m.room.name"
+	}
+	m := c04Obj(c04Build(nil, ver, base, 0).txt)
+	q := func(v string) json.RawMessage { b, _ := json.Marshal(v); return b }
+	m["type"] = q(typ)
+	if stateKey != nil {
+		m["state_key"] = q(*stateKey)
+	}
+	if sender != "" {
+		m["sender"] = q(sender)
+	}
+	m["content"] = json.RawMessage(content)
+	if prev != nil {
+		b, _ := json.Marshal(prev)
+		m["prev_events"] = b
+	}
+	delete(m, "unsigned")
+	h := c04Hash(ver, c04Marshal(m))
+	m["hashes"] = json.RawMessage(`{"sha256":"` + spec.Base64Bytes(h).Encode() + `"}`)
+	return c04Marshal(m)
+}
+
+func c04Limits(c *Ctx, ver string) {
+	pseudo := ver == "org.matrix.msc4014"
+	run := func(txt []byte, class, desc string) {
+		c.Run("C04.limits", [][]byte{B(ver), B("-"), txt, B(""), B(class)}, "C04.limits", "C04.prop.surface", desc)
+		c.Count("limits/" + class)
+	}
+	// with the hash intact (built that way) and with a hash fault on top (a redactable content key added)
+	both := func(txt []byte, class, desc string) {
+		run(txt, class, desc+" hash-ok")
+		m := c04Obj(txt)
+		c04SetContent(m, "zzz_extra", `"x"`, false)
+		run(c04Marshal(m), class, desc+" hash-mismatch")
+	}
+	e2 := "\u00e9" // two bytes, one code point
+	values := func(prefix, suffix string) []string {
+		room := 255 - len(prefix) - len(suffix)
+		return []string{
+			prefix + strings.Repeat("t", room) + suffix,          // 255 bytes
+			prefix + strings.Repeat("t", room+1) + suffix,        // 256 bytes, 256 code points
+			prefix + strings.Repeat(e2, (room+2)/2) + suffix,     // just over 255 bytes, about 128 code points
+			prefix + strings.Repeat(e2, room) + suffix,           // 255 code points, about 510 bytes
+			prefix + strings.Repeat(e2, room+1) + suffix,         // 256 code points
+			prefix + strings.Repeat("t", 254-len(prefix)-len(suffix)) + e2 + suffix, // 256 bytes, 255 code points
+		}
+	}
+	content := `{"body":"hello","msgtype":"m.text"}`
+	for _, v := range values("t.", "") {
+		both(c04BuildCustom(ver, v, nil, "", content, nil), c04LenClass(v), fmt.Sprintf("type %dB/%dcp", len(v), len([]rune(v))))
+	}
+	for _, v := range values("", "") {
+		v := v
+		both(c04BuildCustom(ver, "m.room.name", &v, "", `{"name":"n"}`, nil), c04LenClass(v), fmt.Sprintf("state_key %dB/%dcp", len(v), len([]rune(v))))
+	}
+	if !pseudo {
+		for _, v := range values("@", ":a") {
+			both(c04BuildCustom(ver, "m.room.message", nil, v, content, nil), c04LenClass(v), fmt.Sprintf("sender %dB/%dcp", len(v), len([]rune(v))))
+		}
+	}
+	// two limited fields at once: the refusal that is not persistable wins
+	{
+		ty := "t." + strings.Repeat(e2, 127) // 256 bytes: persistable on its own
+		sk := strings.Repeat("s", 256)        // 256 code points: refused
+		both(c04BuildCustom(ver, ty, &sk, "", content, nil), "e:toolarge", "type persistable + state_key too large")
+		sk2 := strings.Repeat(e2, 128)
+		both(c04BuildCustom(ver, ty, &sk2, "", content, nil), "e:persistable", "type persistable + state_key persistable")
+	}
+	// total size: redactable bulk (gone after redaction) and kept bulk (prev_events stay);
+	// one version per parser in the quick tier (each case is 66 KB through the extracted model)
+	if !c.Thorough() && ver != "2" && ver != "10" && ver != "12" {
+		return
+	}
+	bulk := `{"body":"` + strings.Repeat("x", 66000) + `","msgtype":"m.text"}`
+	big := c04BuildCustom(ver, "m.room.message", nil, "", bulk, nil)
+	run(big, "e:toolarge", "size: 66000 redactable bytes, hash-ok")
+	{
+		// the same with a hash fault: what surfaces is the small redacted form, and that is what
+		// the limit is applied to (as the code does; Synapse checks the pruned event likewise)
+		m := c04Obj(big)
+		c04SetContent(m, "zzz_extra", `"x"`, false)
+		run(c04Marshal(m), "e:ok", "size: 66000 redactable bytes, hash-mismatch")
+	}
+	if ver != "1" && ver != "2" {
+		many := make([]string, 0, 1600)
+		for i := 0; i < 1600; i++ {
+			many = append(many, fmt.Sprintf("$%043d", i))
+		}
+		both(c04BuildCustom(ver, "m.room.message", nil, "", content, many), "e:toolarge", "size: 1600 prev_events (kept)")
 	}
 }
